@@ -48,19 +48,19 @@ def generate(report, module, families, consts, with_grad=True, timeout=3000, par
 
 def flag_table(report):
     """Tape.tla's rule `ResultRG` (result requires grad iff grad mode is on and some operand requires grad), evaluated
-    by TLC into a table for 1..3 operands: {(gm, (rg...)): out}"""
+    by TLC into a table for 1..5 operands: {(gm, (rg...)): out}"""
     got = []
     w = ("MC", "---- MODULE MC ----\nEXTENDS Tape, Json\n"
                "MCNext == UNCHANGED tvars0\n"
-               "EmitFlags == PrintT(ToJson([flagtable |-> FlagTable(1) \\cup FlagTable(2) \\cup FlagTable(3)]))\n====\n")
+               "EmitFlags == PrintT(ToJson([flagtable |-> UNION {FlagTable(k) : k \\in 1..5}]))\n====\n")
     res = tlc.run_tlc("Tape", "INIT TapeInit\nNEXT MCNext\nINVARIANT EmitFlags\nCHECK_DEADLOCK FALSE\n", workers=1, wrapper=w, on_case=got.append, tag="flagtable")
     tlc.require_clean(res, "flagtable")
-    report.tlc(res, "Tape.FlagTable (requires-grad rule for 1..3 operands)")
+    report.tlc(res, "Tape.FlagTable (requires-grad rule for 1..5 operands)")
     table = {}
     for o in got:
         for e in o["flagtable"]:
             table[(bool(e["gm"]), tuple(bool(b) for b in e["rg"]))] = bool(e["out"])
-    if len(table) != 2 * (2 + 4 + 8):
+    if len(table) != 2 * (2 + 4 + 8 + 16 + 32):
         raise core.Machinery("flag table incomplete: %d entries" % len(table))
     return table
 
